@@ -29,7 +29,7 @@ WSFRAME_TB = [
 # looks for its own clauses — "keys" — in what the shared component's monitor reports) -------------------------------------------
 RUN_WSHANDSHAKE_SMALL = {"component": "wshandshake", "quick": {"gen": [(150, 4)]}, "thorough": {"gen": [(1200, 5)]}, "timeout": 1500}
 RUN_WSSTREAM_SMALL = {"component": "wsstream", "quick": {"gen": [(8000, 30)], "enum": [(3, 1)]}, "thorough": {"gen": [(40000, 40)], "enum": [(4, 1)]}}
-RUN_WSCONC_SMALL = {"component": "wsconc", "quick": {"gen": [(700, 16)]}, "thorough": {"gen": [(8000, 22)]}}
+RUN_WSCONC_SMALL = {"component": "wsconc", "quick": {"gen": [(700, 16)], "enum": [("scenarios",)]}, "thorough": {"gen": [(8000, 22)], "enum": [("scenarios",)]}}
 RUN_WSWRITE_SMALL = {"component": "wswrite", "quick": {"gen": [(1500, 12)]}, "thorough": {"gen": [(12000, 14)]}}
 RUN_LOOP_SCENARIOS = {"component": "loop", "quick": {"enum": [["scenarios"]]}, "thorough": {"enum": [["scenarios"]]}, "timeout": 1500}
 RUN_FDS_SMALL = {"component": "fds", "quick": {"gen": [(400, 16)], "enum": [(3,)]}, "thorough": {"gen": [(6000, 24)], "enum": [(4,)]}, "timeout": 900}
